@@ -21,6 +21,14 @@ PLAN = dict(
          "their ecdh key objects reused, nil / empty / explicit (also the explicit default) identities mixed, every caller-owned "
          "byte slice overwritten after the call in three of four histories; finally every session alive is completed, everything is "
          "destroyed and fresh sessions are run on the same key objects; "
+         "c08.encodings: a case is one session seen from one party (own scalars known, the peer given by its points, also points "
+         "with tiny x or y whose unreduced forms fit 32 bytes) in which every encoded input is offered in every form: points (peer "
+         "static key, peer ephemeral key, own static key as sPub, the MQV point) to ecdh.NewPublicKey and sm2.NewPublicKey as 04||x||y, "
+         "compressed with the right and with the other parity tag, hybrid with either tag, x+p / y+p, wrong lengths for the tag, each "
+         "also inside a dirty buffer; the static scalar to ecdh/sm2.NewPrivateKey as 32 bytes, 00||d, stripped, 64 bytes; identities "
+         "(nil, empty non-nil, zero-length slice of a dirty buffer, exact, dirty spare capacity, middle of a dirty buffer) and "
+         "confirmation values (dirty spare capacity) at NewKeyExchange, SetPeerParameters, SM2SharedKey, SM2ZA, CalculateZA, "
+         "ConfirmResponder, ConfirmInitiator; "
          "distinct = distinct class "
          "keys (generator / confirmation mode / key-length class / identity classes / API path; for histories: parties x overwrite "
          "mode x identity mix, and every situation the history went through), none is trivial",
@@ -30,8 +38,14 @@ PLAN = dict(
          + both("c08.ecdh", _CFG_EC + ["ia32"], shards=(4, 8), floor=50)
          + both("c08.implicitsig", _CFG + ["ia32"], shards=(1, 2), floor=20)
          # object histories are about state kept in Go objects, not about a dispatch tier: one assembly and one generic (32-bit) build
-         + both("c08.history", ["avx2", "ia32"], shards=(4, 8), floor=40),
-    assumptions=["harness/ref/sm2kx (GB/T 32918.3 on math/big affine arithmetic of ref/ec and the bitwise SM3 of ref/sm3) is right: "
+         + both("c08.history", ["avx2", "ia32"], shards=(4, 8), floor=40)
+         # alternative encodings: the decoders differ per build (assembly / generic / 32-bit), not per dispatch tier
+         + both("c08.encodings", ["avx2", "purego", "ia32"], shards=(2, 4), floor=40),
+    assumptions=["encodings: PublicKey.Equal may say false for two different encodings of one point (documented), it must not say true "
+                 "for different points; Bytes() of an object made from an alternative encoding may be any SEC1 form with canonical "
+                 "coordinates that denotes the point; an accepted alternative encoding whose later use returns an error counts as a "
+                 "late refusal; a hybrid encoding with the inconsistent parity tag, if accepted, is taken to denote (x, y)",
+                 "harness/ref/sm2kx (GB/T 32918.3 on math/big affine arithmetic of ref/ec and the bitwise SM3 of ref/sm3) is right: "
                  "validated at every start against the recommended-curve example of GB/T 32918.5 / GM/T 0003.5 (public keys, ZA, ZB, "
                  "RA, RB, key, S1/SB, S2/SA) and the three vectors of the repository's tests, and by U = V on every session",
                  "in three of four sessions the caller's buffers (byte inputs of every constructor, identities, returned slices) are "
@@ -63,6 +77,13 @@ CLAIM = dict(
          "buffers; every honest step of every session of the history must give the reference's RA, RB, SB, SA and key in both "
          "implementations, every dishonest step must be refused, a step before the peer parameters are known must be refused, and "
          "at the end the caller's key objects must be unchanged (scalar, public key, Equal/Public/Curve laws of the ecdh objects). "
+         "Alternative encodings (c08.encodings), accept-set: an entry point that takes encoded input either refuses an alternative "
+         "encoding of a valid value or, if it accepts it, everything derived from the accepted object (Bytes(), Equal soundness, ZA, "
+         "MQV point, shared key, SB/SA, plain ECDH, in the byte-oriented and - for sm2.NewPublicKey - the big-integer implementation) "
+         "equals the one-sided GB/T 32918.3 reference for the point / scalar / identity the encoding DENOTES (-P for the other parity "
+         "tag), i.e. for encodings of the true value what the peer and the other implementation derive; encodings that denote "
+         "nothing must be refused, the canonical encoding must be accepted, and no call may write to the caller's buffer or its "
+         "spare capacity. "
          "Exploration over the listed generators, on the ADX, non-ADX, non-AVX2 (SSE), pure-Go and 32-bit back ends.",
     design_ref="DESIGN.md 6 (C08)",
     note="trusted: harness/ref/sm2kx, ref/ec, ref/sm3, math/big; an empty (absent) confirmation value means 'no confirmation' "
